@@ -16,9 +16,19 @@ Exactly-once ledger kept beside the real code (the simulated workers are the led
 * C03.reply-applied every worker reply is applied exactly once: schedule.complete called once with the unit's
                     job/run id/target/state, one chronicle entry (monitor on chronicle.append AND the json
                     file on disk), schedule.update called once with the reported values on success (when at
-                    least one value is reported new) and never on failure/invalid;
+                    least one value is reported new) and never on failure/invalid; and it is applied to the
+                    LIVE unit: once the reply is handled and no worker holds the unit any more (nor is a task
+                    message for it queued), the schedule in use - the graph of the latest schedule.build -
+                    must no longer list the unit as executing (a result recorded on anything else is dropped
+                    as far as the pipeline is concerned: the unit stays `doing` and queued for ever);
 * C03.crew-view     the names in farm.crew()['busy'] equal (as a multiset) the units held by the workers,
                     after every event.
+
+Reload part: the pipeline can rebuild its schedule in the running process (FSM.load -> FSM._pipeline ->
+schedule.build after an update).  The simulator's event ['reload'] does that (see _sched_sim) in states where the
+farm is quiet; the same oracles judge what happens afterwards.  A small seed-independent family of scripted
+histories (run X, tick, reply, reload, run X again, tick, reply, drain ...; see _reload_scripts) runs FIRST so
+that the time budget never cuts it, and the random histories take a reload with low probability.
 '''
 
 import collections
@@ -32,6 +42,11 @@ BOUND = X.BOUND_TEXT + (
     'run id): quick: the 11 curated DAGs x {1 target/1 worker: all event sequences of length <= 4 (3 for the '
     '4-node graphs), 2 targets/2 workers: <= 3} plus 3 seeded histories of length 8..11 each; thorough: the curated DAGs x '
     '{1,2 targets} x {1,2 workers} to length 7 cut at 6000 transitions plus 10 seeded histories each'
+    '; reload (schedule.build again in the same process, farm quiet): the 11 curated DAGs x {1 target/1 worker, '
+    '2 targets/2 workers} x every algorithm X: scripted histories run X, tick, reply o1, reload, run X, tick, '
+    'reply o2, drain (o1, o2 in success/success with new values/failure), full cascades around one and two '
+    'reloads, a reload before anything ran, and all algorithms requested at once around a reload (seed '
+    'independent, both tiers, run first); at most one reload, with low probability, in every seeded history'
 )
 CLAUSES = [
     'C03.one-message',
@@ -52,6 +67,8 @@ class Mon(X.Monitor):
     dropped reply, second execution, wrong crew view - stable signatures)'''
 
     fault_ticks_hit = 0  # statistics (this process only): faulty ticks in which db.next() was really asked
+    reloads_done = 0  # statistics (this process only): reload events executed
+    replies_after_reload = 0  # statistics (this process only): replies judged on a reloaded schedule
 
     def reset(self):
         self.purged = frozenset()
@@ -71,6 +88,14 @@ class Mon(X.Monitor):
     def after(self, sim, ev, rec):
         out = X.common_violations(PROPERTY, rec)
         pre, post = rec['pre'], rec['post']
+        if sim.reloads_used and ev[0] == 'reply':
+            Mon.replies_after_reload += 1
+        if ev[0] == 'reload':
+            Mon.reloads_done += 1
+            # a new graph: nothing was in flight (the event is only enabled when the farm is quiet), so the
+            # ghosts about executions purged while in flight start again
+            self.purged = frozenset()
+            self.tainted = frozenset()
         if ev[0] in ('tick', 'tick-dbfault'):
             released = []
             for b in rec['trace']['njb']:
@@ -206,6 +231,25 @@ class Mon(X.Monitor):
                         % (want_c,),
                     }
                 )  # fmt: skip
+            # applied to the LIVE unit: nobody holds it any more, so the schedule must not list it as executing
+            held = (
+                unit in post['running'] or unit in post['cluster'] or unit in post['cloud']
+                or unit[0] in post['jobs']
+            )  # fmt: skip
+            if not held and unit[1] in post['nodes'][unit[0]]['doing']:
+                out.append(
+                    {
+                        'clause': 'C03.reply-applied',
+                        'signature': 'reply-not-applied-to-live-unit',
+                        'observed': {'reply': [unit[0], unit[1], r['outcome']], 'runid': r['runid'],
+                                     'node_after': post['nodes'][unit[0]], 'que_after': post['que'],
+                                     'view_doing_after': sim.views()['view_doing'],
+                                     'in_flight_after': sorted(post['running']),
+                                     'schedule.complete_calls': tr['complete']},
+                        'expected': 'after its reply %s[%s] is no longer executing in the live schedule '
+                        '(no worker holds it, no task message for it is queued)' % unit,
+                    }
+                )  # fmt: skip
         self.purged = X.purged_in_flight(rec, self.purged)
         views = sim.views()
         want_busy = sorted(_name(u) for u in post['running'])
@@ -227,15 +271,71 @@ class Mon(X.Monitor):
 
 
 def _job(job):
+    if 'scripts' in job:
+        return X.run_scripts(job, Mon)
     return X.explore_job(job, Mon)
 
 
 CFG = {}
-WALK_CFG = {'run_all': True, 'timers': True, 'run_empty': True}
+WALK_CFG = {'run_all': True, 'timers': True, 'run_empty': True, 'reloads': 1}
 # re-requests of executing units and replies are what matters here: bias the random part towards them
-BIAS = {'run': 1.5, 'timer': 0.3, 'tick': 2.5, 'tick-dbfault': 1.0, 'reply': 1.0}
+BIAS = {'run': 1.5, 'timer': 0.3, 'tick': 2.5, 'tick-dbfault': 1.0, 'reply': 1.0, 'reload': 0.2}
 FAULT_CFG = {'db_faults': 1}
-FAULT_WALK_CFG = {'run_all': True, 'timers': True, 'run_empty': True, 'db_faults': 1}
+FAULT_WALK_CFG = {'run_all': True, 'timers': True, 'run_empty': True, 'db_faults': 1, 'reloads': 1}
+RELOAD_CFG = {'reloads': 2, 'run_all': True}
+RELOAD_PAIRS = (('S', 'S'), ('Spq', 'Spq'), ('F', 'Spq'), ('Spq', 'F'))  # reply before / after the reload
+
+
+def _reload_scripts(spec, targets):
+    '''the scripted histories around a reload for one graph (see X.run_scripts for the step language)'''
+    n = spec.n
+    many = len(targets) > 1
+
+    def req(i, everything=False):
+        if spec.is_analysis(i) or everything:
+            return ['run', i, [X.ALL]]
+        return ['run', i, [targets[0]]]
+
+    cascade = ['drain', 'Spq', 6 * n * len(targets) + 6]
+    scripts = []
+    for i in range(n):
+        if not many:
+            # X answered before the reload, requested and answered again after it
+            for o1, o2 in RELOAD_PAIRS:
+                scripts.append(
+                    [req(i), ['tick'], ['reply*', o1], ['reload'], req(i), ['tick'], ['reply*', o2], cascade,
+                     ['noop']]
+                )  # fmt: skip
+            # the whole downstream cascade on the first load, on the reloaded schedule, after a second reload
+            scripts.append(
+                [req(i), cascade, ['reload'], req(i), cascade, ['reload'], req(i), cascade, ['noop']]
+            )
+        else:
+            # the same with every known target (two workers: several units in flight at once)
+            scripts.append([req(i, True), cascade, ['reload'], req(i, True), cascade, ['noop']])
+    # a reload before anything ran
+    scripts.append([['reload'], req(0, many), ['tick'], ['reply*', 'Spq'], cascade, ['noop']])
+    # everything requested at once (dependents wait for their queued ancestors), around a reload
+    every = [req(i, many) for i in reversed(range(n))]
+    scripts.append(every + [cascade, ['reload']] + every + [cascade, ['noop']])
+    if not many:
+        scripts.append(every + [['tick'], ['reply*', 'S'], ['reload']] + every + [cascade, ['noop']])
+    return scripts
+
+
+def _reload_jobs(deadline):
+    '''seed independent, the same in both tiers'''
+    jobs = []
+    for k, spec in enumerate(X.curated_specs()):
+        for targets, workers in ((['T1'], 1), (['T1', 'T2'], 2)):
+            jobs.append(
+                {
+                    'universe': X.Universe(spec, targets, workers).to_json(), 'cfg': RELOAD_CFG,
+                    'scripts': _reload_scripts(spec, targets), 'deadline': deadline, 'depth': 0,
+                    'sample': k == 0 and len(targets) == 1,
+                }
+            )  # fmt: skip
+    return jobs
 
 
 def _fault_jobs(tier, seed, deadline):
@@ -261,19 +361,29 @@ def _fault_jobs(tier, seed, deadline):
 
 def run(tier, seed):
     t0 = time.time()
-    deadline = t0 + (14 if tier == 'quick' else 230)
+    # quick: 14 s of exploration as before + the ~3 s the scripted reload part (run first) takes
+    deadline = t0 + (17 if tier == 'quick' else 230)
     jobs = X.tier_jobs(tier, seed, deadline, CFG, WALK_CFG, bias=BIAS)
     if tier == 'quick':
         jobs = jobs + _fault_jobs(tier, seed, deadline)
     else:  # long jobs first
         jobs = _fault_jobs(tier, seed, deadline) + jobs
+    # the small scripted reload part first: it is never cut by the exploration deadline
+    jobs = _reload_jobs(t0 + (60 if tier == 'quick' else 280)) + jobs
     rule = X.RULE + (
         '  Fault part (C03 only): the same exploration with one more event, a dispatch tick during which '
         'dawgie.db.next() raises, offered once per history in states where a job may ask for a run id.'
+        '  Reload part (C03 only): event reload = schedule.build again in the same process with the farm quiet; '
+        'scripted seed-independent histories around one or two reloads per curated graph and algorithm (run '
+        'first, counted in `scripts`), and at most one reload per seeded random history.'
     )
-    Mon.fault_ticks_hit = 0
+    Mon.fault_ticks_hit = Mon.reloads_done = Mon.replies_after_reload = 0
     out = X.run_tier(PROPERTY, tier, seed, jobs, _job, Mon, rule, CLAUSES, t0)
-    if tier == 'quick':  # one process: the count is complete; the fault part must not be vacuous
+    if tier == 'quick':  # one process: the counts are complete; the reload and fault parts must not be vacuous
+        out['reload_events'] = Mon.reloads_done
+        out['replies_after_reload'] = Mon.replies_after_reload
+        if not (Mon.reloads_done and Mon.replies_after_reload):
+            raise RuntimeError('C03 harness: no reply was ever judged on a reloaded schedule')
         out['db_fault_ticks_hit'] = Mon.fault_ticks_hit
         if not Mon.fault_ticks_hit:
             if out.get('truncated'):
